@@ -24,7 +24,7 @@ META = {
         "f-strings to depth 2, multi-line fields, backslashes; '=' debug, !r/!s/!a, specs with text and nested fields to depth 2), embedded in "
         "statements exercising adjacency (concatenation with plain strings and f-strings, several literals per line / on separate lines, "
         "braces later on the line, across lines in brackets), plus every statement of the corpus sample that contains an f-string; hand-written edge forms; "
-        "every run of up to three adjacent literals out of 14 kinds and every run of up to three pieces inside one literal out of 13 kinds (longer runs "
+        "every run of up to three adjacent literals out of 14 kinds and every run of up to three pieces inside one literal out of 16 kinds (longer runs "
         "sampled); an f-string text soup (runs of backslashes, quotes of every kind, braces, fields in every delimiter and prefix); where a text has a "
         "backslash-newline the token comparison is repeated on its CRLF spelling.  "
         "Only texts ast.parse accepts.  Oracle: astdiff(ast.parse, parse_string, positions=True) is empty; token streams (incl. FSTRING_START/"
@@ -101,7 +101,7 @@ EDGE_FORMS = ['f\'{a:{f"{b:{c:{d}}}"}}\'', 'f\'{o:{a:{f"{b:{c}}"}}}\'', "f'{a:{b
 RUN_PIECES = ["''", "'x'", "f''", "f'{a}'", "f'\\\n'", "f'y'", "f'\\\nq'", "f'{a}\\\n'", "u'v'", "'''\n'''", "f'''{b}\n'''", 'f"{c}\\\n{d}"', "u''", 'r"\\"']
 
 
-INNER_PIECES = ["\\\n", "{f=}", "{g}", "y", "{{", "}}", "{h:>3}", "{k = }", "{m:\\\n}", " ", "{n:{w}}", "\\t", "{p!r}"]
+INNER_PIECES = ["\\\n", "{f=}", "{g}", "y", "{{", "}}", "{h:>3}", "{k = }", "{m:\\\n}", " ", "{n:{w}}", "\\t", "{p!r}", "\\N{DIGIT ONE}", "\\x41", "\\\\"]
 
 
 def strip_empty_spec_constants(tree):
